@@ -235,6 +235,10 @@ class NoteData:
             if last_measure == -1:
                 push_measure()
 
+        # an empty note stream never enters the loop above
+        if last_player == -1:
+            push_measure()
+
         return cls(notedata.getvalue())
 
     # Returns the line without keysound indices and optionally populates the
